@@ -253,7 +253,7 @@ Proof.
   - simpl in Hab. rewrite cmp_rest_r_wf in Hab by assumption. destruct b as [|y b]; [discriminate|].
     destruct c as [|z c].
     + change (cmp_rest_l (y :: b) = Lt) in Hbc. rewrite cmp_rest_l_wf in Hbc by assumption. discriminate.
-    + simpl. rewrite cmp_rest_r_wf by assumption. reflexivity.
+    + change (cmp_rest_r (z :: c) = Lt). rewrite cmp_rest_r_wf by assumption. reflexivity.
   - destruct b as [|y b].
     { change (cmp_rest_l (x :: a) = Lt) in Hab. rewrite cmp_rest_l_wf in Hab by assumption. discriminate. }
     destruct c as [|z c].
@@ -293,7 +293,7 @@ Definition wf_pre (p : str) : bool :=
   match p with [] => true | _ => wfl (split_on c_dot p) end.
 
 Lemma wf_unfold v : wf v = wf_pre (pre v).
-Proof. reflexivity. Qed.
+Proof. unfold wf, wf_pre. destruct (pre v); reflexivity. Qed.
 
 Lemma cmp_pre_refl p : wf_pre p = true -> cmp_pre p p = Eq.
 Proof. destruct p; [reflexivity|]. intros H. apply cmp_parts_refl. exact H. Qed.
@@ -319,21 +319,21 @@ Qed.
 
 (* ---------- Version.Compare ---------- *)
 Lemma compare_refl v : wf v = true -> compare v v = Eq.
-Proof. intros W. unfold compare. rewrite !N.compare_refl. apply cmp_pre_refl. exact W. Qed.
+Proof. intros W. rewrite wf_unfold in W. unfold compare. rewrite !N.compare_refl. apply cmp_pre_refl. exact W. Qed.
 
 Lemma compare_eq a b : wf a = true -> wf b = true -> (compare a b = Eq <-> eqv a b).
 Proof.
-  intros Wa Wb. unfold compare, eqv. split.
+  intros Wa Wb. rewrite wf_unfold in Wa, Wb. unfold compare, eqv. split.
   - destruct (N.compare_spec (major a) (major b)); try discriminate.
     destruct (N.compare_spec (minor a) (minor b)); try discriminate.
     destruct (N.compare_spec (patch a) (patch b)); try discriminate.
-    intros H. apply cmp_pre_eq in H; auto.
+    intros HE. apply cmp_pre_eq in HE; auto.
   - intros (-> & -> & -> & E). rewrite !N.compare_refl. rewrite <- E. apply cmp_pre_refl. exact Wa.
 Qed.
 
 Lemma compare_antisym a b : wf a = true -> wf b = true -> compare b a = CompOpp (compare a b).
 Proof.
-  intros Wa Wb. unfold compare.
+  intros Wa Wb. rewrite wf_unfold in Wa, Wb. unfold compare.
   rewrite (N.compare_antisym (major a) (major b)), (N.compare_antisym (minor a) (minor b)),
           (N.compare_antisym (patch a) (patch b)), (cmp_pre_antisym (pre a) (pre b)) by assumption.
   destruct (major a ?= major b); simpl; try reflexivity.
@@ -344,7 +344,7 @@ Qed.
 Lemma lt_trans a b c : wf a = true -> wf b = true -> wf c = true ->
   lt a b -> lt b c -> lt a c.
 Proof.
-  intros Wa Wb Wc. unfold lt, compare.
+  intros Wa Wb Wc. rewrite wf_unfold in Wa, Wb, Wc. unfold lt, compare.
   destruct (N.compare_spec (major a) (major b)) as [E1|L1|G1]; try discriminate;
   destruct (N.compare_spec (major b) (major c)) as [E2|L2|G2]; try discriminate;
   destruct (N.compare_spec (major a) (major c)) as [E3|L3|G3]; try lia; try reflexivity.
@@ -365,7 +365,8 @@ Qed.
 
 Lemma gt_trans a b c : wf a = true -> wf b = true -> wf c = true -> gt a b -> gt b c -> gt a c.
 Proof.
-  intros Wa Wb Wc H1 H2. apply gt_lt in H1, H2; auto. apply gt_lt; auto. eapply lt_trans; eauto.
+  intros Wa Wb Wc H1 H2. apply gt_lt in H1, H2; auto. apply gt_lt; auto.
+  apply (lt_trans c b a); assumption.
 Qed.
 
 Lemma lt_irrefl a : wf a = true -> ~ lt a a.
@@ -376,9 +377,9 @@ Lemma trichotomy a b : wf a = true -> wf b = true ->
 Proof.
   intros Wa Wb. pose proof (compare_eq a b Wa Wb) as E. unfold lt.
   rewrite (compare_antisym a b Wa Wb). destruct (compare a b); simpl.
-  - right; left. repeat split; try discriminate. tauto.
-  - left. repeat split; try discriminate. intros H. apply E in H. discriminate.
-  - right; right. repeat split; try discriminate. intros H. apply E in H. discriminate.
+  - right; left. split; [discriminate|]. split; [apply E; reflexivity | discriminate].
+  - left. split; [reflexivity|]. split; [|discriminate]. intros H. apply E in H. discriminate.
+  - right; right. split; [discriminate|]. split; [|reflexivity]. intros H. apply E in H. discriminate.
 Qed.
 
 (* equal precedence is a congruence for the comparison (so [lt] is a strict total order
@@ -416,7 +417,7 @@ Proof.
   induction l as [|x l IH]; simpl; [reflexivity|]. intros H1 H2.
   apply andb_true_iff in H1 as [I1 I2]. apply andb_true_iff in H2 as [P1 P2].
   rewrite (IH I2 P2), andb_true_r.
-  destruct x as [|b t]; [discriminate|]. unfold pre_part_ok in P1. simpl.
+  destruct x as [|b t]; [discriminate|]. unfold pre_part_ok in P1. unfold wf_ident.
   destruct (all_digits (b :: t)) eqn:D; [|reflexivity]. simpl.
   destruct t; [rewrite andb_false_r; reflexivity|]. rewrite andb_true_r. exact P1.
 Qed.
